@@ -12,6 +12,7 @@ pub mod c09;
 pub mod c10;
 pub mod c11;
 pub mod c12;
+pub mod c12sys;
 pub mod c13;
 pub mod c14;
 pub mod c15;
@@ -26,6 +27,9 @@ pub fn all() -> Vec<MonitorDef> {
 }
 
 /// non-property sub-commands (helpers used by the driver); none yet
-pub fn special(_id: &str, _args: &[String]) -> Option<i32> {
-	None
+pub fn special(id: &str, args: &[String]) -> Option<i32> {
+	match id {
+		"c12-write" => Some(c12sys::child_write(args)),
+		_ => None,
+	}
 }
